@@ -375,3 +375,340 @@ Proof.
            { rewrite subseq_cons. destruct (z =? x) eqn:E2; [apply Z.eqb_eq in E2; congruence | auto]. }
            rewrite Hw'. cbn [min_opt]. f_equal. lia.
 Qed.
+
+Lemma wf_ins_sub s v : forall l, wf l -> wf (fst (ins_sub s v l)).
+Proof.
+  induction s as [|x rest IH]; intros l H; auto.
+  destruct rest as [|y r].
+  - rewrite ins_sub_one. apply wf_ins_leaf; auto.
+  - rewrite ins_sub_cons2.
+    assert (Hc : exists w c, match get x l with None => (v, []) | Some (w, Node c) => (Z.min w v, c) end = (w, c) /\ wf c).
+    { destruct (get x l) as [[w0 [c0]]|] eqn:E; eexists _, _; split; eauto.
+      - rewrite <- wf_t_node. eapply wf_get; eauto.
+      - apply wf_nil. }
+    destruct Hc as (w & c & -> & Hwc).
+    pose proof (IH c Hwc) as Hc'. destruct (ins_sub (y :: r) v c) as [c' res]. cbn [fst] in Hc'. cbv zeta.
+    assert (Hl1 : wf (put x w (Node c') l)) by (apply wf_put; auto).
+    destruct res; cbn [fst]; auto.
+Qed.
+
+(* ---- insert_batch_vertices ---- *)
+Lemma wf_ins_batch vs v : forall l, wf l -> wf (ins_batch vs v l).
+Proof.
+  unfold ins_batch. induction vs as [|x vs IH]; intros l H; cbn [fold_left]; auto.
+  apply IH. destruct (get x l); auto. apply wf_put; auto. exact I.
+Qed.
+Lemma find_ins_batch vs v : forall l t, t <> [] ->
+  find_val t (ins_batch vs v l) =
+  match t with
+  | [x] => if existsb (Z.eqb x) vs then Some (min_opt None (match find_val t l with Some w => w | None => v end)) else find_val t l
+  | _ => find_val t l
+  end.
+Proof.
+  unfold ins_batch. induction vs as [|x vs IH]; intros l t Ht; cbn [fold_left existsb].
+  - destruct t as [|z [|z' t']]; reflexivity.
+  - rewrite IH by auto. destruct t as [|z [|z' t']]; [congruence| |].
+    + rewrite !find_val_one. cbn [min_opt].
+      destruct (z =? x) eqn:E.
+      * apply Z.eqb_eq in E; subst z. cbn [orb].
+        destruct (get x l) as [[w c]|] eqn:Eg.
+        -- rewrite Eg. cbn [option_map fst]. destruct (existsb (Z.eqb x) vs); reflexivity.
+        -- rewrite get_put_same. cbn [option_map fst]. destruct (existsb (Z.eqb x) vs); reflexivity.
+      * apply Z.eqb_neq in E. cbn [orb].
+        destruct (get x l) as [[w c]|] eqn:Eg; [reflexivity|]. rewrite get_put_other by auto. reflexivity.
+    + destruct (get x l) as [[w c]|] eqn:Eg; [reflexivity|].
+      rewrite !find_val_deep. destruct (Z.eq_dec z x) as [->|Hzx].
+      * rewrite get_put_same, Eg. cbn [leaf]. apply find_val_nil_l.
+      * rewrite get_put_other by auto. reflexivity.
+Qed.
+
+(* ---- remove_maximal_simplex ---- *)
+Lemma rm_max_one x l a : rm_max [x] l a = (del x l, negb a && (Z.of_nat (length l) <=? 1)).
+Proof. reflexivity. Qed.
+Lemma rm_max_cons2 x y r l a :
+  rm_max (x :: y :: r) l a =
+  match get x l with
+  | None => (l, false)
+  | Some (w, Node c) => let '(c', e) := rm_max (y :: r) c false in (put x w (Node c') l, e)
+  end.
+Proof. reflexivity. Qed.
+Lemma wf_rm_max s : forall l a, wf l -> wf (fst (rm_max s l a)).
+Proof.
+  induction s as [|x [|y r] IH]; intros l a H; auto.
+  - rewrite rm_max_one. cbn [fst]. apply wf_del; auto.
+  - rewrite rm_max_cons2. destruct (get x l) as [[w [c]]|] eqn:E; auto.
+    assert (Hc : wf c) by (rewrite <- wf_t_node; eapply wf_get; eauto).
+    specialize (IH c false Hc). destruct (rm_max (y :: r) c false) as [c' e]. cbn [fst] in *.
+    apply wf_put; auto.
+Qed.
+(* the node of s goes away with everything below it; nothing else changes *)
+Theorem find_rm_max s : forall l a t, wf l -> s <> [] -> t <> [] -> find_val s l <> None ->
+  find_val t (fst (rm_max s l a)) = if prefixb s t then None else find_val t l.
+Proof.
+  induction s as [|x [|y r] IH]; intros l a t Hwf Hs Ht Hin; [congruence| |].
+  - rewrite rm_max_one. cbn [fst]. destruct t as [|z [|z' t']]; [congruence| |].
+    + rewrite !find_val_one. cbn [prefixb]. rewrite andb_true_r. destruct (x =? z) eqn:E.
+      * apply Z.eqb_eq in E; subst z. rewrite get_del_same; auto.
+      * apply Z.eqb_neq in E. rewrite get_del_other by auto. reflexivity.
+    + rewrite !find_val_deep. cbn [prefixb]. rewrite andb_true_r. destruct (x =? z) eqn:E.
+      * apply Z.eqb_eq in E; subst z. rewrite get_del_same; auto.
+      * apply Z.eqb_neq in E. rewrite get_del_other by auto. reflexivity.
+  - rewrite rm_max_cons2. rewrite find_val_deep in Hin.
+    destruct (get x l) as [[w [c]]|] eqn:E; [|congruence].
+    assert (Hc : wf c) by (rewrite <- wf_t_node; eapply wf_get; eauto).
+    specialize (IH c false).
+    destruct (rm_max (y :: r) c false) as [c' e]. cbn [fst] in *.
+    destruct t as [|z [|z' t']]; [congruence| |].
+    + cbn [prefixb]. rewrite andb_false_r. rewrite !find_val_one.
+      destruct (Z.eq_dec z x) as [->|Hzx].
+      * rewrite get_put_same, E. reflexivity.
+      * rewrite get_put_other by auto. reflexivity.
+    + cbn [prefixb]. rewrite !find_val_deep.
+      destruct (x =? z) eqn:Exz.
+      * apply Z.eqb_eq in Exz; subst z. rewrite get_put_same, E. cbn [andb].
+        rewrite IH by (auto; congruence). reflexivity.
+      * apply Z.eqb_neq in Exz. rewrite get_put_other by auto. reflexivity.
+Qed.
+
+(* ------------------------------------------------------------------------------------------------ specification side *)
+Lemma nil_in_sublists b : In [] (sublists b).
+Proof. induction b as [|y b IH]; cbn [sublists]; [left; auto | apply in_or_app; right; auto]. Qed.
+Lemma subseq_tail : forall b x a, subseq (x :: a) b = true -> subseq a b = true.
+Proof.
+  induction b as [|y b IH]; intros x a H; [discriminate|].
+  rewrite subseq_cons in H. destruct a as [|z a']; auto. rewrite subseq_cons.
+  destruct (x =? y).
+  - destruct (z =? y); [apply (IH _ _ H) | exact H].
+  - pose proof (IH _ _ H) as H1. destruct (z =? y); [apply (IH _ _ H1) | exact H1].
+Qed.
+Lemma subseq_cons_r a b y : subseq a b = true -> subseq a (y :: b) = true.
+Proof.
+  intro H. destruct a as [|z a']; auto. rewrite subseq_cons. destruct (z =? y); auto.
+  eapply subseq_tail; eauto.
+Qed.
+Lemma subseq_sublists : forall b a, subseq a b = true <-> In a (sublists b).
+Proof.
+  induction b as [|y b IH]; intros a.
+  - rewrite subseq_nil_r. destruct a; cbn; split; auto; try discriminate. intros [H|[]]; discriminate.
+  - cbn [sublists]. rewrite in_app_iff, in_map_iff. split.
+    + destruct a as [|x a']; [intros _; right; apply nil_in_sublists|].
+      rewrite subseq_cons. destruct (x =? y) eqn:E.
+      * apply Z.eqb_eq in E; subst. intro H. left. exists a'. split; auto. apply IH; auto.
+      * intro H. right. apply IH; auto.
+    + intros [(a' & <- & H)|H].
+      * rewrite subseq_cons, Z.eqb_refl. apply IH; auto.
+      * apply subseq_cons_r. apply IH; auto.
+Qed.
+Lemma in_faces t s : In t (faces s) <-> t <> [] /\ subseq t s = true.
+Proof.
+  unfold faces. rewrite filter_In, <- subseq_sublists. destruct t; cbn; split; intros [H1 H2]; split; auto; congruence.
+Qed.
+Lemma prefixb_subseq : forall p s, prefixb p s = true -> subseq p s = true.
+Proof.
+  induction p as [|x p IH]; intros [|y s] H; auto; try discriminate.
+  cbn [prefixb] in H. apply andb_true_iff in H as [H1 H2]. rewrite subseq_cons, H1. auto.
+Qed.
+
+Lemma lookup_in K t w : lookup K t = Some w -> In (t, w) K.
+Proof.
+  induction K as [|[u x] r IH]; cbn [lookup]; [discriminate|].
+  destruct (seqb u t) eqn:E.
+  - apply seqb_eq in E; subst. intro H; inversion H; left; auto.
+  - intro H; right; auto.
+Qed.
+
+Lemma lookup_fold_insert v L : forall K t,
+  lookup (fold_left (fun K t => spec_insert K t v) L K) t =
+  if existsb (seqb t) L then Some (min_opt (lookup K t) v) else lookup K t.
+Proof.
+  induction L as [|u L IH]; intros K t; cbn [fold_left existsb]; auto.
+  rewrite IH. destruct (seqb t u) eqn:E.
+  - apply seqb_eq in E; subst u. cbn [orb]. rewrite spec_insert_same.
+    destruct (existsb (seqb t) L); destruct (lookup K t); cbn [min_opt]; f_equal; lia.
+  - cbn [orb]. rewrite spec_insert_other; auto. intro; subst; rewrite seqb_refl in E; discriminate.
+Qed.
+Lemma existsb_faces t s : existsb (seqb t) (faces s) = negb (is_nil t) && subseq t s.
+Proof.
+  destruct (existsb (seqb t) (faces s)) eqn:E.
+  - apply existsb_exists in E as (u & Hu & Heq). apply seqb_eq in Heq; subst u.
+    apply in_faces in Hu as [H1 H2]. rewrite H2. destruct t; [congruence | reflexivity].
+  - destruct t as [|x t']; auto. cbn [is_nil negb andb].
+    destruct (subseq (x :: t') s) eqn:E2; auto.
+    assert (In (x :: t') (faces s)) by (apply in_faces; split; [congruence | auto]).
+    assert (existsb (seqb (x :: t')) (faces s) = true) by (apply existsb_exists; eexists; split; eauto; apply seqb_refl).
+    congruence.
+Qed.
+Theorem lookup_insert_closure K s v t : t <> [] ->
+  lookup (spec_insert_closure K s v) t = if subseq t s then Some (min_opt (lookup K t) v) else lookup K t.
+Proof.
+  intro Ht. unfold spec_insert_closure. rewrite lookup_fold_insert, existsb_faces.
+  destruct t; [congruence | reflexivity].
+Qed.
+Lemma lookup_batch vs v : forall K t,
+  lookup (spec_batch K vs v) t =
+  match t with
+  | [x] => if existsb (Z.eqb x) vs then Some (min_opt None (match lookup K t with Some w => w | None => v end)) else lookup K t
+  | _ => lookup K t
+  end.
+Proof.
+  unfold spec_batch. induction vs as [|x vs IH]; intros K t; cbn [fold_left existsb].
+  - destruct t as [|z [|z' t']]; reflexivity.
+  - rewrite IH. destruct t as [|z [|z' t']].
+    + destruct (lookup K [x]); auto. apply lookup_cset_other; congruence.
+    + cbn [min_opt]. destruct (z =? x) eqn:E.
+      * apply Z.eqb_eq in E; subst z. cbn [orb]. destruct (lookup K [x]) eqn:El.
+        -- rewrite El. destruct (existsb (Z.eqb x) vs); reflexivity.
+        -- rewrite lookup_cset_same. destruct (existsb (Z.eqb x) vs); reflexivity.
+      * apply Z.eqb_neq in E. cbn [orb]. destruct (lookup K [x]); auto.
+        rewrite lookup_cset_other by congruence. reflexivity.
+    + destruct (lookup K [x]); auto. apply lookup_cset_other; congruence.
+Qed.
+
+(* ---- norm = std::sort + std::unique ---- *)
+Lemma sins_in x y s : In y (sins x s) <-> y = x \/ In y s.
+Proof.
+  induction s as [|z s IH]; cbn [sins].
+  - cbn; intuition.
+  - zcmp x z; cbn [In]; [subst | | rewrite IH]; intuition.
+Qed.
+Lemma sins_sorted x s : ssorted s -> ssorted (sins x s).
+Proof.
+  unfold ssorted. induction 1 as [|z s Hs IH Hall]; cbn [sins].
+  - constructor; constructor.
+  - zcmp x z.
+    + constructor; auto.
+    + constructor; [constructor; auto|]. constructor; auto.
+      rewrite Forall_forall in *. intros u Hu. specialize (Hall u Hu). lia.
+    + constructor; auto. rewrite Forall_forall in *. intros u Hu. apply sins_in in Hu as [->|Hu]; auto; try lia.
+Qed.
+Lemma norm_sorted l : ssorted (norm l).
+Proof. induction l; cbn; [constructor | apply sins_sorted; auto]. Qed.
+Lemma sins_nonnil x s : sins x s <> [].
+Proof. destruct s as [|z s]; cbn [sins]; [congruence|]. destruct (x ?= z); congruence. Qed.
+Lemma norm_nonnil l : l <> [] -> norm l <> [].
+Proof. destruct l; [congruence|]. intros _. cbn. apply sins_nonnil. Qed.
+
+(* ---- closed and monotone, as used by the proofs ---- *)
+Lemma good_closed K t t' : good K = true -> cmem K t = true -> t' <> [] -> subseq t' t = true -> cmem K t' = true.
+Proof.
+  unfold good. intros Hg Ht Hne Hsub. apply andb_true_iff in Hg as [Hc _].
+  unfold cmem in Ht. destruct (lookup K t) as [w|] eqn:E; [|discriminate].
+  apply lookup_in in E. unfold closedb in Hc. rewrite forallb_forall in Hc. specialize (Hc _ E). cbn [fst] in Hc.
+  rewrite forallb_forall in Hc. apply Hc. apply in_faces; auto.
+Qed.
+Lemma good_mono K t t' w w' :
+  good K = true -> lookup K t = Some w -> t' <> [] -> subseq t' t = true -> lookup K t' = Some w' -> w' <= w.
+Proof.
+  unfold good. intros Hg Ht Hne Hsub Ht'. apply andb_true_iff in Hg as [_ Hm].
+  apply lookup_in in Ht. unfold monob in Hm. rewrite forallb_forall in Hm. specialize (Hm _ Ht). cbn [fst snd] in Hm.
+  rewrite forallb_forall in Hm. assert (Hin : In t' (faces t)) by (apply in_faces; auto).
+  specialize (Hm _ Hin). rewrite Ht' in Hm. lia.
+Qed.
+
+Definition agree (l : sibs) (K : cplx) : Prop := wf l /\ forall t, t <> [] -> find_val t l = lookup K t.
+
+Lemma good_exit_ok K l s v : good K = true -> agree l K -> exit_ok l s v.
+Proof.
+  intros Hg [_ Ha] t Ht Hsub (w & Hw & Hle) t' Ht' Hsub'.
+  rewrite Ha in Hw by auto.
+  assert (Hc : cmem K t' = true) by (eapply good_closed; eauto; unfold cmem; rewrite Hw; auto).
+  unfold cmem in Hc. destruct (lookup K t') as [w'|] eqn:E; [|discriminate].
+  exists w'. rewrite Ha by auto. split; auto.
+  assert (w' <= w) by (eapply good_mono; eauto). lia.
+Qed.
+
+(* the operations whose refinement is proved here (pruning, graph insertion and expansion are compared only) *)
+Definition proved_op (o : op) : bool :=
+  match o with
+  | OInsert _ _ | OInsertSub _ _ | OBatch _ _ | ORemove _ | OClear | ODim | OCount => true
+  | _ => false
+  end.
+
+Lemma has_coface_false K s t :
+  has_coface K s = false -> prefixb s t = true -> lookup K t <> None -> t = s.
+Proof.
+  intros Hc Hp Hl. destruct (lookup K t) as [w|] eqn:E; [|congruence].
+  apply lookup_in in E. unfold has_coface in Hc.
+  assert (Hin : In t (keys K)) by (unfold keys; apply in_map_iff; exists (t, w); auto).
+  destruct (seqb s t) eqn:Es; [apply seqb_eq in Es; auto|].
+  assert (existsb (fun t0 => subseq s t0 && negb (seqb s t0)) (keys K) = true).
+  { apply existsb_exists. exists t. split; auto. rewrite prefixb_subseq, Es; auto. }
+  congruence.
+Qed.
+
+Lemma step_agree fx st K o :
+  agree (tree st) K -> good K = true -> proved_op o = true -> pre_op K o = true -> good (spec_step K o) = true ->
+  agree (tree (step fx st o)) (spec_step K o).
+Proof.
+  intros [Hwf Ha] Hg Hp Hpre Hg'. destruct o; try discriminate; cbn [step spec_step tree].
+  - (* insert_simplex *)
+    cbn [pre_op] in Hpre. apply andb_true_iff in Hpre as [Hpre _]. apply andb_true_iff in Hpre as [Hne _].
+    assert (Hs : norm s <> []) by (apply norm_nonnil; destruct s; [discriminate | congruence]).
+    split; [apply wf_ins_raw; auto|]. intros t Ht. rewrite find_ins_raw by auto.
+    cbn [spec_step] in Hg'.
+    destruct (seqb t (norm s)) eqn:E.
+    + apply seqb_eq in E; subst t. rewrite spec_insert_same, Ha by auto. destruct (lookup K (norm s)); reflexivity.
+    + assert (Htn : t <> norm s) by (intro; subst; rewrite seqb_refl in E; discriminate).
+      rewrite spec_insert_other by auto.
+      destruct (prefixb t (norm s)) eqn:Ep; cbn [andb]; [|apply Ha; auto].
+      assert (Hc : cmem (spec_insert K (norm s) v) t = true).
+      { apply (good_closed _ (norm s) t Hg'); auto; [|apply prefixb_subseq; auto].
+        unfold cmem. rewrite spec_insert_same. reflexivity. }
+      unfold cmem in Hc. rewrite spec_insert_other in Hc by auto. rewrite Ha by auto.
+      destruct (lookup K t); [reflexivity | discriminate].
+  - (* insert_simplex_and_subfaces *)
+    destruct (norm s) as [|x r] eqn:En; cbn [tree].
+    + split; auto.
+    + rewrite <- En in *. assert (Hs : norm s <> []) by congruence.
+      split; [apply wf_ins_sub; auto|]. intros t Ht.
+      pose proof (find_ins_sub (norm s) v (tree st) (norm_sorted s) Hs (good_exit_ok K _ _ _ Hg (conj Hwf Ha))) as [_ Hf].
+      rewrite Hf, lookup_insert_closure, Ha by auto. reflexivity.
+  - (* insert_batch_vertices *)
+    split; [apply wf_ins_batch; auto|]. intros t Ht. rewrite find_ins_batch, lookup_batch by auto.
+    destruct t as [|z [|z' t']]; rewrite ?Ha by congruence; reflexivity.
+  - (* remove_maximal_simplex *)
+    cbn [pre_op] in Hpre. apply andb_true_iff in Hpre as [Hmem Hcof]. apply negb_true_iff in Hcof.
+    destruct (rm_max (norm s) (tree st) true) as [t0 e] eqn:Er. cbn [tree].
+    assert (Ht0 : t0 = fst (rm_max (norm s) (tree st) true)) by (rewrite Er; reflexivity). subst t0.
+    destruct (norm s) as [|x r] eqn:En.
+    + cbn [rm_max fst]. split; auto. intros t Ht. rewrite spec_remove_other by auto. apply Ha; auto.
+    + rewrite <- En in *. assert (Hs : norm s <> []) by congruence.
+      split; [apply wf_rm_max; auto|]. intros t Ht.
+      assert (Hin : find_val (norm s) (tree st) <> None).
+      { rewrite Ha by auto. unfold cmem in Hmem. destruct (lookup K (norm s)); [congruence | discriminate]. }
+      rewrite find_rm_max by auto.
+      destruct (prefixb (norm s) t) eqn:Ep.
+      * destruct (list_eq_dec Z.eq_dec t (norm s)) as [->|Hne].
+        -- rewrite spec_remove_same; reflexivity.
+        -- rewrite spec_remove_other by auto.
+           destruct (lookup K t) eqn:El; auto. exfalso. apply Hne.
+           eapply has_coface_false; eauto. congruence.
+      * rewrite spec_remove_other; [apply Ha; auto|]. intro; subst. rewrite prefixb_refl in Ep; discriminate.
+  - (* clear *)
+    split; [apply wf_nil|]. intros t Ht. rewrite find_val_nil_l. reflexivity.
+  - (* dimension() *)
+    unfold dimension. destruct (dirty st); cbn [fst lower_ub tree]; split; auto.
+  - (* num_simplices_by_dimension() *)
+    unfold count_by_dim. destruct (is_empty st); cbn [fst]; [split; auto|].
+    destruct (counts_t _ _ _); cbn [fst]; [|split; auto].
+    destruct (dirty st); cbn [fst tree]; split; auto.
+Qed.
+
+Lemma run_agree fx : forall ops st K,
+  agree (tree st) K -> good K = true -> forallb proved_op ops = true -> ok_from K ops = true ->
+  agree (tree (fold_left (step fx) ops st)) (fold_left spec_step ops K).
+Proof.
+  induction ops as [|o ops IH]; intros st K Ha Hg Hp Hok; cbn [fold_left]; auto.
+  cbn [forallb] in Hp. apply andb_true_iff in Hp as [Hp1 Hp2].
+  cbn [ok_from] in Hok. apply andb_true_iff in Hok as [Hok Hok3]. apply andb_true_iff in Hok as [Hok1 Hok2].
+  apply IH; auto. apply step_agree; auto.
+Qed.
+
+Theorem history_refines_proved fx ops :
+  forallb proved_op ops = true -> ok_history ops = true ->
+  wf (tree (run fx ops)) /\
+  forall t, t <> [] -> find_val t (tree (run fx ops)) = lookup (spec_run ops) t.
+Proof.
+  intros Hp Hok. apply (run_agree fx ops empty_state []); auto.
+  split; [apply wf_nil|]. intros t _. rewrite find_val_nil_l. reflexivity.
+Qed.
